@@ -21,7 +21,10 @@ def plan(tier, seed):
     ]
     nr = 2 if q else 12
     for i in range(nr):
-        shards.append({"kind": "sortrand", "n": 600 if q else 2500})
+        shards.append({"kind": "sortrand", "n": 600 if q else 40000})
+    if not q:
+        for i in range(13):
+            shards.append({"kind": "laws", "random_only": True, "reps": 1500})
     return {
         "level": "exploration",
         "exhaustive": True,
@@ -262,12 +265,12 @@ def worker(spec, out):
 
     kind = spec["kind"]
     if kind == "laws":
-        for fam, elems in fams.items():
+        for fam, elems in ({} if spec.get("random_only") else fams).items():
             laws(fam, elems)
             out.sample({"family": fam, "elements": [P(e) for e in elems]})
         # second generation: random same-family universes drawn from generators (wider names / values)
         K, S = b.kw.keyword, b.sym.symbol
-        for rep in range(6 if spec["tier"] == "quick" else 60):
+        for rep in range(spec.get("reps", 6 if spec["tier"] == "quick" else 60)):
             pool = [rnd.choice(["a", "b", "ab", "ba", "z", "a.b", "b.a", "A", "a-b"]) for _ in range(6)]
             ks = list({(n, s) for n in pool[:4] for s in pool[2:] + [None]})
             rnd.shuffle(ks)
@@ -286,6 +289,12 @@ def worker(spec, out):
             laws("vec-num", vs)
             vk = [b.vec.vector([K(rnd.choice("ab"), ns=rnd.choice(["a", "b", None])) for _ in range(rnd.randint(0, 3))]) for _ in range(9)]
             laws("vec-kw", vk)
+            if spec.get("random_only"):
+                ss = ["".join(rnd.choice("abAB\u00e9 \U0001F600z0") for _ in range(rnd.randint(0, 4))) for _ in range(10)]
+                laws("str", ss)
+                laws("vec-str", [b.vec.vector([rnd.choice(ss[:4]) for _ in range(rnd.randint(0, 3))]) for _ in range(9)])
+                laws("vec-vec", [b.vec.vector([rnd.choice(vs[:5]) for _ in range(rnd.randint(0, 3))]) for _ in range(9)])
+                out.maybe_flush()
     elif kind == "sortperm":
         names = sorted(fams)
         for fam in names[spec["fam_part"]::spec["fam_parts"]]:
